@@ -389,6 +389,39 @@ pub fn child_main() {
             bad.push(format!("hmac/sha iteration {}", i));
         }
     }
+    // AEAD and X25519: A, B, A again - with related inputs (same key other nonce, same nonce other key, aad/pt swapped)
+    let mut rng = Rng::new(0xc19c);
+    for i in 0..40usize {
+        let key = rng.arr32();
+        let key2 = if i % 2 == 0 { key } else { rng.arr32() };
+        let n1: [u8; 12] = rng.bytes(12).try_into().unwrap();
+        let n2 = if i % 3 == 0 { n1 } else { rng.bytes(12).try_into().unwrap() };
+        let a = rng.bytes_in(0, 20);
+        let p = rng.bytes_in(0, 70);
+        let seq: Vec<(&[u8; 32], &[u8; 12], &[u8], &[u8])> = vec![(&key, &n1, &a, &p), (&key2, &n2, &p, &a), (&key, &n1, &a, &p), (&key2, &n1, &a, &a), (&key, &n2, &p, &p)];
+        for (k, n, ad, pt) in seq {
+            let want = ossl::aead_seal(k, n, ad, pt);
+            let got = guarded(|| chapoly_encrypt_ietf(k, n, pt, ad));
+            let back = guarded(|| chapoly_decrypt_ietf(k, n, &want, ad));
+            if !matches!(&got, Ok(g) if *g == want) || !matches!(&back, Ok(Ok(b)) if b == pt) {
+                bad.push(format!("aead sequence {}", i));
+            }
+        }
+        let s1 = rng.arr32();
+        let s2 = rng.arr32();
+        let u = rng.arr32();
+        for (k, uu) in [(&s1, &u), (&s2, &u), (&s1, &u), (&s1, &base_point()), (&s2, &base_point()), (&s1, &base_point())] {
+            let want = x25519_raw(k, uu);
+            match guarded(|| x25519(k, uu)) {
+                Ok(Ok(g)) if g[..] == want[..] => {}
+                Ok(Err(_)) if want == [0u8; 32] => {}
+                _ => bad.push(format!("x25519 sequence {}", i)),
+            }
+        }
+        if !matches!(guarded(|| x25519_derive_public(&s1)), Ok(Ok(g)) if g[..] == x25519_raw(&s1, &base_point())[..]) {
+            bad.push(format!("derive_public sequence {}", i));
+        }
+    }
     if bad.is_empty() {
         println!("C19-CHILD-OK");
     } else {
